@@ -13,11 +13,12 @@ CONSTANTS
   EXTRAS = {0}
   TAXES = {0, 2}
   REWARDS = {0, 5}
-  FEES = {0, 7, 100}
+  FEES = {0, 100}
   PATHS = {"bank"}
-  BURNS = {1}
+  BURNS = {}
   DELAMTS = {1}
   MAXDEL = 1
+  MAXJAIL = 1
   MAXEPOCHS = 3
   MAXOPS = 5
   GENSUPPLY = 10
